@@ -98,6 +98,143 @@ def gen(tier, rng):
             out.append(f"wd_minus {w} {dd}")
         for w2 in range(0, 7):
             out.append(f"wd_diff {w} {w2}")
+
+    out += gen_cal(tier, rng, quick)
+    return out
+
+
+def fl(a, b):
+    return a // b
+
+
+def gen_cal(tier, rng, quick):
+    """part 2: the calendar types around the kernels"""
+    out = []
+    R = rng.randint
+    I32 = 2**31
+    by = [-32767, -32766, -401, -400, -100, -5, -4, -1, 0, 1, 4, 100, 400, 1600, 1900, 1970, 2000, 2023, 2024, 2100, 32766, 32767]
+    ys = by + [R(-32767, 32767) for _ in range(20 if quick else 400)]
+    # --- year
+    for y in ys + [-32768, 32768, -40000, 40000, 65536 + 5, -65536 - 7]:
+        for dy in [0, 1, -1, 2, -3, 100, -400, 65535, 65536, -65537, R(-70000, 70000), R(-70000, 70000), I32 - 50000, -(I32 - 50000)]:
+            out.append(f"year_arith {y} {dy}")
+    for a in by + [-32768]:
+        for b in by + [-32768, R(-32768, 32767)]:
+            out.append(f"year_cmp {a} {b}")
+    # --- month
+    for m in list(range(0, 20)) + [100, 127, 128, 200, 253, 254] + [R(0, 254) for _ in range(5)]:
+        for dm in list(range(-26, 27)) + [I32 - 1, -(I32 - 1), 1000003, -1000003, R(-10**6, 10**6), R(-I32 + 1, I32 - 1)]:
+            out.append(f"month_arith {m} {dm}")
+    for a in list(range(0, 15)) + [254]:
+        for b in list(range(0, 15)) + [254]:
+            out.append(f"month_cmp {a} {b}")
+            out.append(f"day_cmp {min(a + 20, 254)} {min(b + 20, 254)}")
+            out.append(f"day_cmp {a} {b}")
+    for v in list(range(0, 40)) + [127, 128, 253, 254, 256, 257, 300, 511, 512, 65535, 65536, 2**32 - 1, R(256, 2**32 - 1)]:
+        out.append(f"mctor {v}")
+        out.append(f"dctor {v}")
+    out.append("mctor_max 255")
+    out.append("dctor_max 255")
+    # --- day
+    for d in list(range(0, 36)) + [100, 127, 128, 200, 250, 253, 254]:
+        for dd in list(range(-40, 41)) + [255 - d, 254 - d, 256 - d, -d, -d - 1, 255, 256, -255, -256, 2**31 - 1, -2**31, 2**31 - 256, R(-10**6, 10**6), R(-300, 300)]:
+            out.append(f"day_assign {d} {dd}")
+            if dd != -2**31:
+                pass
+            out.append(f"day_plus_max {d} {dd}" if d + dd == 255 else f"day_plus {d} {dd}")
+            out.append(f"day_minus_max {d} {dd}" if d - dd == 255 else f"day_minus {d} {dd}")
+    # --- weekday, weekday_indexed, weekday_last, month_day, month_weekday
+    for w in list(range(0, 12)) + [127, 128, 254, 255]:
+        for idx in range(0, 8):
+            out.append(f"wd_misc {w} {idx}")
+    for w in range(0, 8):
+        for idx in [8, 9, 100, 255]:
+            out.append(f"wd_misc {w} {idx}")
+    for m in list(range(0, 15)) + [254]:
+        for d in list(range(0, 34)) + [254]:
+            out.append(f"md_ok {m} {d}")
+        for w in range(0, 9):
+            for idx in list(range(0, 8)) + [200]:
+                out.append(f"mwd_ok {m} {w} {idx}")
+    # --- year_month +/- years, year_month_day +/- months / years (no clamping of the day)
+    dms = list(range(-14, 15)) + [24, -24, 25, -25, 1200, -1200]
+    for y in ys:
+        for m in [0, 1, 2, 6, 12, 13, 254]:
+            for dy in [0, 1, -1, 4, -100, R(-300, 300)]:
+                out.append(f"ym_years {y} {m} {dy}")
+        for _ in range(6 if quick else 30):
+            m = R(1, 12)
+            d = rng.choice([0, 1, 28, 29, 30, 31, 32, R(1, 31), R(0, 254)])
+            out.append(f"ymd_arith {y} {m} {d} {rng.choice(dms + [R(-5000, 5000)])} {rng.choice([0, 1, -1, 4, -4, 100, R(-500, 500)])}")
+        for (m, d) in [(1, 31), (2, 29), (3, 31), (12, 31), (1, 29), (1, 30)]:
+            for dm in [1, -1, 11, 12, -12, 13, 25, -23]:
+                out.append(f"ymd_arith {y} {m} {d} {dm} {rng.choice([1, -1, 4, 3])}")
+    # --- year_month_day_last, year_month_weekday(_last)
+    yall = ys if quick else ys + list(range(-32767, 32768, 41))
+    for y in yall:
+        for m in range(1, 13):
+            out.append(f"ymdl {y} {m}")
+            for d in [0, 1, 31, 32, 60, 254, R(0, 254)]:
+                out.append(f"days_any {y} {m} {d}")
+            for w in range(0, 7):
+                out.append(f"ymwdl {y} {m} {w}")
+                for idx in range(0, 8):
+                    out.append(f"ymwd_ok {y} {m} {w} {idx}")
+                for idx in range(0, 7):
+                    out.append(f"ymwd_to {y} {m} {w} {idx}")
+            out.append(f"ymwd_ok {y} {m} {R(0, 8)} {R(6, 255)}")
+            out.append(f"ymwd_to {y} {m} {R(0, 6)} {R(7, 255)}")
+        for m in [0, 13, 14, 254]:
+            out.append(f"ymdl_ok {y} {m}")
+            out.append(f"ymwd_ok {y} {m} {R(0, 6)} {R(1, 5)}")
+            out.append(f"ymwdl_ok {y} {m} {R(0, 6)}")
+        out.append(f"ymwd_ok {y} {R(1, 12)} {R(7, 8)} {R(1, 5)}")
+        out.append(f"ymwdl_ok {y} {R(1, 12)} {R(7, 255)}")
+        out.append(f"ymdl_ok {y} {R(1, 12)}")
+        for _ in range(4):
+            m, w, idx = R(1, 12), R(0, 6), R(1, 5)
+            dm = rng.choice(dms + [R(-5000, 5000)])
+            dy = rng.choice([0, 1, -1, 4, -4, 100, R(-500, 500)])
+            out.append(f"ymdl_arith {y} {m} {dm} {dy}")
+            out.append(f"ymwd_arith {y} {m} {w} {idx} {dm} {dy}")
+            out.append(f"ymwdl_arith {y} {m} {w} {dm} {dy}")
+    for m in [0, 1, 12, 13]:
+        for w in [0, 6, 7, 8]:
+            out.append(f"ymwd_ok -32768 {m} {w} 1")
+            out.append(f"ymwdl_ok -32768 {m} {w}")
+        out.append(f"ymdl_ok -32768 {m}")
+    # year_month_weekday <-> sys_days: a stride sweep, era boundaries, month ends, range ends
+    zs = set()
+    for era in range(-88, 86):
+        b = era * ERA - 719468
+        for k in range(-2, 3):
+            zs.add(b + k)
+    for k in range(0, 40 if quick else 800):
+        zs.add(DAY_LO + k)
+        zs.add(DAY_HI - k)
+    for y in [-1, 0, 1900, 2000, 2024, 2100]:
+        a = dfc(y, 1, 1)
+        for k in range(0, 366):
+            zs.add(a + k)
+    for z in range(DAY_LO, DAY_HI, 19997 if quick else 193):
+        zs.add(z)
+    for _ in range(1500 if quick else 100000):
+        zs.add(R(DAY_LO, DAY_HI))
+    for z in sorted(z for z in zs if DAY_LO <= z <= DAY_HI):
+        out.append(f"ymwd_from {z}")
+    # --- == / != of every calendar type; operator/ spellings
+    for _ in range(600 if quick else 6000):
+        a = [rng.choice(by + [-32768]), R(0, 14), R(0, 9), R(0, 7)]
+        b = list(a)
+        k = R(0, 5)
+        if k < 4:
+            b[k] = rng.choice([b[k] + 1, b[k] - 1 if b[k] > 0 else b[k] + 2, R(0, 7)])
+        if R(0, 9) == 0:
+            a[2], b[2] = 7, 0      # weekday{7} == weekday{0}, day{7} != day{0}
+        out.append("eq_all " + " ".join(map(str, a + b)))
+    for y in by + [-32768, 40000, -40000]:
+        for (m, d) in [(1, 1), (2, 29), (12, 31), (0, 0), (13, 32), (254, 254), (R(0, 254), R(0, 254))]:
+            out.append(f"slash {y} {m} {d}")
     return out
 
 
